@@ -6,6 +6,7 @@ import (
 	"bytes"
 	"context"
 	"fmt"
+	"os"
 	"sort"
 	"time"
 
@@ -254,6 +255,7 @@ func c25RunReal(out *verifx.Out, k int, i int, dir string) {
 	out.Case(k, uint64(1000+i))
 	rec := &c25Rec{}
 	ctx := context.Background()
+	_ = os.RemoveAll(dir) // a leftover of an interrupted run
 	st := verifx.NewStack(dir, verifx.StackOpts{PartKind: "sql"})
 	defer st.Close()
 	b := storage.MustNewBucketName("c25real")
@@ -263,7 +265,7 @@ func c25RunReal(out *verifx.Out, k int, i int, dir string) {
 	start := time.Now().UTC()
 	now := start.Truncate(c25DayD).Add(40*c25DayD + 12*time.Hour)
 	en := storage.LifecycleRuleStatusEnabled
-	all := &storage.LifecycleFilter{Prefix: pstr("")}
+	all := &storage.LifecycleFilter{Prefix: c25PStr("")}
 	var rules []storage.LifecycleRule
 	mode := "enabled"
 	tick := func() { time.Sleep(2 * time.Millisecond) } // distinct row timestamps
@@ -277,27 +279,27 @@ func c25RunReal(out *verifx.Out, k int, i int, dir string) {
 		s.put("data/x", "x", nil)
 		s.del("data/x")
 		rules = []storage.LifecycleRule{
-			{Status: en, Filter: &storage.LifecycleFilter{Prefix: pstr("logs/")}, NoncurrentVersionExpiration: &storage.LifecycleNoncurrentVersionExpiration{NoncurrentDays: p32(3), NewerNoncurrentVersions: p32(1)},
-				NoncurrentVersionTransitions: []storage.LifecycleNoncurrentVersionTransition{{NoncurrentDays: p32(1), StorageClass: "STANDARD_IA"}}},
-			{Status: en, Filter: &storage.LifecycleFilter{Tag: &storage.LifecycleTag{Key: "env", Value: "prod"}}, Transitions: []storage.LifecycleTransition{{Days: p32(2), StorageClass: "GLACIER"}}},
+			{Status: en, Filter: &storage.LifecycleFilter{Prefix: c25PStr("logs/")}, NoncurrentVersionExpiration: &storage.LifecycleNoncurrentVersionExpiration{NoncurrentDays: c25P32(3), NewerNoncurrentVersions: c25P32(1)},
+				NoncurrentVersionTransitions: []storage.LifecycleNoncurrentVersionTransition{{NoncurrentDays: c25P32(1), StorageClass: "STANDARD_IA"}}},
+			{Status: en, Filter: &storage.LifecycleFilter{Tag: &storage.LifecycleTag{Key: "env", Value: "prod"}}, Transitions: []storage.LifecycleTransition{{Days: c25P32(2), StorageClass: "GLACIER"}}},
 		}
 	case 1: // current object replaced between listing and the expiration delete (unversioned)
 		mode = "unversioned"
 		s.put("logs/a", "old", nil)
 		s.put("logs/b", "keep", nil)
-		rules = []storage.LifecycleRule{{Status: en, Filter: &storage.LifecycleFilter{Prefix: pstr("logs/a")}, Expiration: &storage.LifecycleExpiration{Days: p32(3)}}}
+		rules = []storage.LifecycleRule{{Status: en, Filter: &storage.LifecycleFilter{Prefix: c25PStr("logs/a")}, Expiration: &storage.LifecycleExpiration{Days: c25P32(3)}}}
 		s.onFirst["logs/a"] = func() { s.put("logs/a", "replacement-content", nil) }
 	case 2: // current object replaced between listing and the transition (versioned)
 		s.versioning(storage.BucketVersioningStatusEnabled)
 		s.put("logs/a", "old", nil)
-		rules = []storage.LifecycleRule{{Status: en, Filter: all, Transitions: []storage.LifecycleTransition{{Days: p32(1), StorageClass: "GLACIER"}}}}
+		rules = []storage.LifecycleRule{{Status: en, Filter: all, Transitions: []storage.LifecycleTransition{{Days: c25P32(1), StorageClass: "GLACIER"}}}}
 		s.onFirst["logs/a"] = func() { tick(); s.put("logs/a", "replacement-content", nil) }
 	case 3: // a noncurrent null version is replaced (versioning suspended, key written) between listing and its delete
 		s.put("logs/a", "written-before-versioning", nil)
 		s.versioning(storage.BucketVersioningStatusEnabled)
 		tick()
 		s.put("logs/a", "v1", nil)
-		rules = []storage.LifecycleRule{{Status: en, Filter: all, NoncurrentVersionExpiration: &storage.LifecycleNoncurrentVersionExpiration{NoncurrentDays: p32(1)}}}
+		rules = []storage.LifecycleRule{{Status: en, Filter: all, NoncurrentVersionExpiration: &storage.LifecycleNoncurrentVersionExpiration{NoncurrentDays: c25P32(1)}}}
 		s.onFirst["logs/a"] = func() {
 			s.versioning(storage.BucketVersioningStatusSuspended)
 			tick()
@@ -306,7 +308,7 @@ func c25RunReal(out *verifx.Out, k int, i int, dir string) {
 	case 4: // a sole delete marker gets an object written on top of it between listing and its delete
 		s.versioning(storage.BucketVersioningStatusEnabled)
 		s.del("logs/a")
-		rules = []storage.LifecycleRule{{Status: en, Filter: all, Expiration: &storage.LifecycleExpiration{ExpiredObjectDeleteMarker: pbool(true)}}}
+		rules = []storage.LifecycleRule{{Status: en, Filter: all, Expiration: &storage.LifecycleExpiration{ExpiredObjectDeleteMarker: c25PBool(true)}}}
 		s.onFirst["logs/a"] = func() { tick(); s.put("logs/a", "fresh-data-written-after-the-listing", nil) }
 	case 5: // retention count after the three oldest versions were re-tagged
 		s.versioning(storage.BucketVersioningStatusEnabled)
@@ -320,7 +322,7 @@ func c25RunReal(out *verifx.Out, k int, i int, dir string) {
 			verifx.Check(s.Next.PutObjectTagging(ctx, b, storage.MustNewObjectKey("logs/a"), map[string]string{"reviewed": "yes"}, &storage.ObjectTaggingOptions{VersionID: &vid}))
 			tick()
 		}
-		rules = []storage.LifecycleRule{{Status: en, Filter: all, NoncurrentVersionExpiration: &storage.LifecycleNoncurrentVersionExpiration{NoncurrentDays: p32(2), NewerNoncurrentVersions: p32(1)}}}
+		rules = []storage.LifecycleRule{{Status: en, Filter: all, NoncurrentVersionExpiration: &storage.LifecycleNoncurrentVersionExpiration{NoncurrentDays: c25P32(2), NewerNoncurrentVersions: c25P32(1)}}}
 	case 6: // S3 expires the second-newest noncurrent version under NewerNoncurrentVersions=1; here it is kept and transitioned
 		s.versioning(storage.BucketVersioningStatusEnabled)
 		for j := 0; j < 3; j++ {
@@ -328,14 +330,14 @@ func c25RunReal(out *verifx.Out, k int, i int, dir string) {
 			tick()
 		}
 		rules = []storage.LifecycleRule{{Status: en, Filter: all,
-			NoncurrentVersionExpiration:  &storage.LifecycleNoncurrentVersionExpiration{NoncurrentDays: p32(3), NewerNoncurrentVersions: p32(1)},
-			NoncurrentVersionTransitions: []storage.LifecycleNoncurrentVersionTransition{{NoncurrentDays: p32(1), StorageClass: "GLACIER"}}}}
+			NoncurrentVersionExpiration:  &storage.LifecycleNoncurrentVersionExpiration{NoncurrentDays: c25P32(3), NewerNoncurrentVersions: c25P32(1)},
+			NoncurrentVersionTransitions: []storage.LifecycleNoncurrentVersionTransition{{NoncurrentDays: c25P32(1), StorageClass: "GLACIER"}}}}
 	case 7: // two stacked delete markers and no object version
 		s.versioning(storage.BucketVersioningStatusEnabled)
 		s.del("logs/a")
 		tick()
 		s.del("logs/a")
-		rules = []storage.LifecycleRule{{Status: en, Filter: all, Expiration: &storage.LifecycleExpiration{ExpiredObjectDeleteMarker: pbool(true)}}}
+		rules = []storage.LifecycleRule{{Status: en, Filter: all, Expiration: &storage.LifecycleExpiration{ExpiredObjectDeleteMarker: c25PBool(true)}}}
 	}
 	verifx.Check(st.Storage.PutBucketLifecycleConfiguration(ctx, b, &storage.BucketLifecycleConfiguration{Rules: rules}))
 	rec.add("cfg", mode, "pithos", "real")
